@@ -35,7 +35,21 @@ type Spec struct {
 	// history oracles such as a linearizability check. It returns an oracle rule and
 	// detail, or "" if the history is fine; inconclusive results are counted via res.
 	PostCheck func(r *sim.Result) (rule, detail string)
+	// Batch is an oracle that is expensive to start (a JVM): runs are collected and judged
+	// together every BatchSize runs; verdicts are attributed to the run they belong to.
+	Batch     BatchOracle
+	BatchSize int
 }
+
+// BatchOracle judges collected runs together.
+type BatchOracle interface {
+	// Collect is called after each run that has not failed otherwise.
+	Collect(idx uint64, res *sim.Result)
+	// Flush judges everything collected since the last Flush: idx -> verdict.
+	Flush() (map[uint64]BatchVerdict, error)
+}
+
+type BatchVerdict struct{ Rule, Detail string }
 
 // runOnce executes one simulated run plus the post-run history check.
 func runOnce(t *testing.T, spec Spec, cfg sim.RunConfig) sim.Result {
@@ -45,8 +59,19 @@ func runOnce(t *testing.T, spec Spec, cfg sim.RunConfig) sim.Result {
 			res.Failure = &sim.Failure{Rule: rule, Detail: detail, Step: res.Steps, SimNS: int64(res.SimTime)}
 		}
 	}
+	if spec.Batch != nil && !inRunLoop && res.Failure == nil && res.Infra == "" {
+		spec.Batch.Collect(0, &res)
+		vs, err := spec.Batch.Flush()
+		if err != nil {
+			res.Infra = "batch oracle: " + err.Error()
+		} else if v, ok := vs[0]; ok {
+			res.Failure = &sim.Failure{Rule: v.Rule, Detail: v.Detail, Step: res.Steps, SimNS: int64(res.SimTime)}
+		}
+	}
 	return res
 }
+
+var inRunLoop bool
 
 type ReplayFile struct {
 	Property  string         `json:"property"`
@@ -209,9 +234,74 @@ func runLoop(t *testing.T, spec Spec, tier string, o *out, known map[string]bool
 	start := time.Now()
 	samples := 0
 	fails := 0
+	inRunLoop = true
+	defer func() { inRunLoop = false }()
+	type kept struct {
+		seed      uint64
+		decisions []sim.Decision
+		digest    uint64
+		steps     int
+	}
+	pending := map[uint64]kept{}
+	flush := func() bool {
+		if spec.Batch == nil || len(pending) == 0 {
+			return true
+		}
+		// the external oracle may take minutes: keep the wall-clock watchdog quiet meanwhile
+		stopTick := make(chan struct{})
+		go func() {
+			for {
+				select {
+				case <-stopTick:
+					return
+				case <-time.After(5 * time.Second):
+					sim.Steps.Add(1)
+				}
+			}
+		}()
+		t0 := time.Now()
+		vs, err := spec.Batch.Flush()
+		close(stopTick)
+		agg.Counts["batch_oracle_ms"] += int(time.Since(t0).Milliseconds())
+		agg.Counts["batch_oracle_calls"]++
+		if err != nil {
+			o.put(Record{Type: "infra", Msg: "batch oracle: " + err.Error()})
+			return false
+		}
+		ids := make([]uint64, 0, len(vs))
+		for id := range vs {
+			ids = append(ids, id)
+		}
+		sort.Slice(ids, func(a, b int) bool { return ids[a] < ids[b] })
+		for _, id := range ids {
+			v, k := vs[id], pending[id]
+			rec := Record{Type: "fail", Idx: id, Seed: k.seed, Rule: v.Rule, Detail: v.Detail, Decisions: k.decisions, Digest: fmt.Sprintf("%016x", k.digest), Steps: k.steps}
+			if known[v.Rule] {
+				rec.Known = true
+				agg.KnownHits[v.Rule]++
+				if agg.KnownHits[v.Rule] == 1 {
+					o.put(rec)
+				}
+			} else {
+				o.put(rec)
+				fails++
+			}
+		}
+		pending = map[uint64]kept{}
+		return true
+	}
+	bsize := spec.BatchSize
+	if bsize == 0 {
+		bsize = 100
+	}
 	for i := from; i < to; i += stride {
 		if !deadline.IsZero() && time.Now().After(deadline) {
 			break
+		}
+		if len(pending) >= bsize {
+			if !flush() || fails >= maxFails {
+				break
+			}
 		}
 		seed := sim.RunSeed(base, spec.Property, i)
 		cfg := spec.Configure(seed, tier)
@@ -276,6 +366,10 @@ func runLoop(t *testing.T, spec Spec, tier string, o *out, known map[string]bool
 			}
 			continue
 		}
+		if spec.Batch != nil {
+			spec.Batch.Collect(i, &res)
+			pending[i] = kept{seed: seed, decisions: res.Decisions, digest: res.Digest, steps: res.Steps}
+		}
 		if spec.NonTrivial == nil || spec.NonTrivial(&res) {
 			nt[res.Digest] = struct{}{}
 		}
@@ -284,6 +378,7 @@ func runLoop(t *testing.T, spec Spec, tier string, o *out, known map[string]bool
 			samples++
 		}
 	}
+	flush()
 	agg.WallS = time.Since(start).Seconds()
 	ds := make([]string, 0, len(nt))
 	for d := range nt {
